@@ -123,6 +123,7 @@ class StateHist(Engine):
         knob = rk.choice(KNOBS)
         via = rk.choice(["class_attr", "class_attr", "subclass"])
         nops = {"default": ro.randint(10, 40), "deep": ro.randint(25, 60), "wide": ro.randint(15, 45)}[profile]
+        nops *= stream(seed, "size").choice([1, 1, 1, 2, 3]) if tier == "thorough" else 1
         ops = []
         ids = []
         ops.append({"op": "root", "id": "s0", "values": rand_updates(ro, len(gf))})
